@@ -368,7 +368,7 @@ impl Cursor<'_> {
 
             '@' => {
                 if is_id_start(self.first()) {
-                    self.eat_while(|c| c != '\n');
+                    self.eat_while(|c| c != '\n' && c != '\r');
                     Annotation
                 } else {
                     At
@@ -472,7 +472,7 @@ impl Cursor<'_> {
         debug_assert!(self.prev() == '/' && self.first() == '/');
         self.bump();
 
-        self.eat_while(|c| c != '\n');
+        self.eat_while(|c| c != '\n' && c != '\r');
         LineComment
     }
 
@@ -541,7 +541,7 @@ impl Cursor<'_> {
                         if self.first() == 'a' {
                             self.bump();
                             if is_whitespace(self.first()) {
-                                self.eat_while(|c| c != '\n');
+                                self.eat_while(|c| c != '\n' && c != '\r');
                                 return true;
                             }
                         }
